@@ -257,10 +257,12 @@ class TimedList(Generic[Item]):
             The appended ``TimedList``.
 
         """
+        # Build the one-row frame from a list of rows so that each column
+        # gets its own dtype (a transposed Series makes every column object)
         if isinstance(val, Series):
-            val = val.data.to_frame().T
+            val = pd.DataFrame([val.data])
         if isinstance(val, pd.Series):
-            val = pd.DataFrame(val).T
+            val = pd.DataFrame([val])
         if isinstance(val, TimedList):
             val = val.df
         obj = self.__class__(pd.concat([self.df, val], ignore_index=True))
